@@ -128,6 +128,10 @@ def snapshot(detector) -> dict:
     except Exception as exc:  # noqa: BLE001
         snap["scene_empty"] = f"error {exc!r}"
     try:
+        snap["scene_tree"] = detector.scene.data.copy(deep=True)
+    except Exception as exc:  # noqa: BLE001
+        snap["scene_tree"] = None
+    try:
         snap["data_empty"] = bool(detector.data.is_empty)
     except Exception as exc:  # noqa: BLE001
         snap["data_empty"] = f"error {exc!r}"
@@ -157,8 +161,8 @@ def gen_array(shape, dtype, key) -> np.ndarray:
     rng = np.random.default_rng([abs(hash(str(k))) % (2**32) if not isinstance(k, int) else k for k in key])
     dt = np.dtype(dtype)
     if dt.kind == "u":
-        hi = min(np.iinfo(dt).max, 2**40)
-        return rng.integers(0, hi, size=shape, endpoint=True).astype(dt)
+        # full range: values above 2**53 reveal any detour through floating point
+        return rng.integers(0, np.iinfo(dt).max, size=shape, endpoint=True, dtype=dt)
     return (rng.random(size=shape) * 1000.0 + 1.0).astype(dt)
 
 
@@ -248,7 +252,6 @@ def writer2(detector, **kwargs) -> None:
     if "pixel+" in names:
         arr = gen_array(detector.geometry.shape, "float64", (seed, step, 3))
         try:
-            cur = detector.pixel.array
+            detector.pixel.array += arr  # in place, like pyxel's own simple_collection
         except ValueError:
-            cur = 0.0
-        detector.pixel.array = cur + arr
+            detector.pixel.array = arr
